@@ -15,6 +15,7 @@ import (
 	"golang.org/x/tools/go/packages"
 
 	"verif/internal/load"
+	"verif/internal/norm"
 	"verif/internal/yacc"
 )
 
@@ -148,6 +149,7 @@ type State struct {
 	Events  []Event
 	Undec   []string
 	Conds   []string
+	Opaque  []string // conditions assumed on the path that did not become a Fact
 	objs    *int
 	done    bool
 	folds   map[string]Fold
@@ -244,6 +246,7 @@ func (s *State) clone() *State {
 	}
 	n.Undec = append([]string(nil), s.Undec...)
 	n.Conds = append([]string(nil), s.Conds...)
+	n.Opaque = append([]string(nil), s.Opaque...)
 	if s.folds != nil {
 		n.folds = map[string]Fold{}
 		for k, f := range s.folds {
@@ -275,6 +278,7 @@ type Lang struct {
 	Prog    *load.Program
 	Actions []*Action // index = production number (0 unused)
 	Problems []string
+	Inlined map[string]int // helper → number of call sites inlined into actions
 }
 
 func (l *Lang) info() *types.Info { return l.Pkg.TypesInfo }
@@ -312,6 +316,11 @@ func Extract(p *load.Program, yl *yacc.Lang) (*Lang, error) {
 	if sw == nil {
 		return nil, fmt.Errorf("internal/%s: action switch not found", yl.Label)
 	}
+	// helpers of the package (parser.go, node.go) are inlined into the actions, tagless switches become if chains;
+	// what the interpreter knows by name stays a call
+	prims := map[string]bool{"lastNode": true, "firstNode": true, "isDollar": true, "report": true, "Error": true}
+	nz := norm.New(pk, norm.Options{NoCopyProp: true, NoLoops: true, Keep: func(fn *types.Func) bool { return prims[fn.Name()] }})
+	l.Inlined = nz.Inlined
 	for _, c := range sw.Body.List {
 		cc := c.(*ast.CaseClause)
 		if len(cc.List) != 1 {
@@ -350,7 +359,7 @@ func Extract(p *load.Program, yl *yacc.Lang) (*Lang, error) {
 				}
 			}
 		}
-		a.Body = body
+		a.Body = nz.Block(&ast.BlockStmt{Lbrace: cc.Colon, List: body}, nil).List
 		l.Actions[n] = a
 	}
 	return l, nil
@@ -1107,6 +1116,7 @@ func (in *interp) assume(e ast.Expr, truth bool, s *State) bool {
 				s.fact(other).Nil = &isNil
 				return true
 			}
+			s.Opaque = append(s.Opaque, fmt.Sprintf("%s=%v", types.ExprString(e), truth))
 			return true
 		case token.GTR, token.GEQ, token.LSS, token.LEQ:
 			// len(x) > 0
@@ -1115,8 +1125,10 @@ func (in *interp) assume(e ast.Expr, truth bool, s *State) bool {
 					v := in.eval(c.Args[0], s)
 					gt := truth
 					s.fact(v).LenGt0 = &gt
+					return true
 				}
 			}
+			s.Opaque = append(s.Opaque, fmt.Sprintf("%s=%v", types.ExprString(e), truth))
 			return true
 		}
 	case *ast.Ident:
@@ -1164,6 +1176,7 @@ func (in *interp) assume(e ast.Expr, truth bool, s *State) bool {
 			}
 		}
 	}
+	s.Opaque = append(s.Opaque, fmt.Sprintf("%s=%v", types.ExprString(e), truth))
 	return true
 }
 
